@@ -4,6 +4,11 @@
 set -e
 cd "$(dirname "$0")"
 mkdir -p .work/bin evidence replays coq/Run
+# the two translators first: the inventories under coq/Gen are regenerated from /repo before anything is compiled
+(cd tools/gotools && GOFLAGS=-mod=mod GOPROXY=off GOSUMDB=off GOTOOLCHAIN=local go build -o ../../.work/bin/mapranges ./mapranges)
+(cd tools/gotools && GOFLAGS=-mod=mod GOPROXY=off GOSUMDB=off GOTOOLCHAIN=local go build -o ../../.work/bin/effects ./effects)
+python3 tools/gen_mapranges.py
+python3 tools/gen_effects.py
 cd coq
 VFILES=$(for d in Base Gen Model Spec Proofs Properties Check; do [ -d $d ] && find $d -name '*.v'; done | sort)
 coq_makefile -f _CoqProject $VFILES -o Makefile > /dev/null
@@ -16,7 +21,5 @@ PY
 timeout 3000 make -j8
 cd ..
 ./harness/build.sh "$(pwd)/.work/bin"
-(cd tools/gotools && GOFLAGS=-mod=mod GOPROXY=off GOSUMDB=off GOTOOLCHAIN=local go build -o ../../.work/bin/mapranges ./mapranges)
 CGO_ENABLED=1 ./harness/build.sh "$(pwd)/.work/bin-race" -race || echo "race build unavailable"
-(cd tools/gotools && GOFLAGS=-mod=mod GOPROXY=off GOSUMDB=off GOTOOLCHAIN=local go build -o ../../.work/bin/effects ./effects)
 echo setup done
